@@ -100,7 +100,7 @@ Blocks(z) == {
 (* poetic literals (C11): every sequence of items; a 's / 're suffix needs a word (or suffix) before it, a literal *)
 (* never starts with a hyphen                                                                                      *)
 PItems == { PW("a"), PW("it"), PW("lovely"), PW("abcdefghi"), PW("abcdefghij"), PW("abcdefghijk"), PW("abcdefghijklmnopqrst"),
-            PW("don't"), PW("~t~"), PW("and"), PW("nothing"), PW("5"), PS("'s"), PS("'re"), PS("-top"), PS("-and"), PD }
+            PW("don't"), PW("~t~"), PW("and"), PW("not"), PW("nothing"), PW("5"), PS("'s"), PS("'re"), PS("-top"), PS("-and"), PD }
 PSeqOK(es) == /\ es[1].k # "s"
               /\ \A i \in 2..Len(es) : es[i].k = "s" /\ CharAt(es[i].s, 1) = "'" =>
                      es[i - 1].k = "w" \/ (es[i - 1].k = "s" /\ CharAt(es[i - 1].s, 1) = "-")     \* one 's / 're per word
